@@ -115,7 +115,7 @@ theorem regCheck_none {cfg : Cfg} {s : State} {e : Ent} {ia : IdArg} {force weak
     isDead s e = false ∧ ia ≠ .nonStr ∧ (cfg.refuseDaemonName = true → resolveId s ia ≠ .daemon) ∧
     ¬(isClass e = true ∧ weak = true) ∧
     (force = false → alreadyHasId cfg s e = false) ∧
-    (force = false → lookup (resolveId s ia) s.objs = none) := by
+    (force = false → lookup (resolveId s ia) s.objs = none) ∧ canSet e = true := by
   unfold regCheck at h
   split at h; · simp at h
   split at h; · simp at h
@@ -123,8 +123,9 @@ theorem regCheck_none {cfg : Cfg} {s : State} {e : Ent} {ia : IdArg} {force weak
   split at h; · simp at h
   split at h; · simp at h
   split at h; · simp at h
-  rename_i h1 h2 h3 h4 h5 h6
-  refine ⟨by simpa using h1, h2, ?_, ?_, ?_, ?_⟩
+  split at h; · simp at h
+  rename_i h1 h2 h3 h4 h5 h6 h7
+  refine ⟨by simpa using h1, h2, ?_, ?_, ?_, ?_, by simpa using h7⟩
   · intro hc hd; apply h3; simp [hc, hd]
   · intro ⟨a, b⟩; apply h4; simp [a, b]
   · intro hf
@@ -180,7 +181,7 @@ theorem invW_init : InvW init := by
 theorem invW_regCommit {cfg : Cfg} {s : State} {e : Ent} {ia : IdArg} {force weak : Bool}
     (hI : InvW s) (hC : cfg.refuseDaemonName = true) (hc : regCheck cfg s e ia force weak = none) :
     InvW (regCommit s e ia weak) := by
-  obtain ⟨hdead, _, hnd, hcw, _, _⟩ := regCheck_none hc
+  obtain ⟨hdead, _, hnd, hcw, _, _, _⟩ := regCheck_none hc
   have hnd := hnd hC
   refine ⟨?_, ?_, ?_, ?_, ?_⟩
   · intro i k w h
@@ -262,6 +263,7 @@ theorem delAttrs_frame (s : State) (e : Ent) :
 theorem invW_unregister {cfg : Cfg} {s : State} (t : Target) (h : InvW s) : InvW (unregister cfg s t).1 := by
   unfold unregister
   split
+  · exact h
   · exact h
   · exact h
   · split
@@ -609,6 +611,7 @@ theorem back_unregister {cfg : Cfg} {s : State} (t : Target) (hD : cfg.unregChec
   cases t with
   | noneArg => exact hB
   | plain => exact hB
+  | daemonObj => exact hB
   | byId i =>
     simp only [unregister]
     split
@@ -719,11 +722,11 @@ def Spec.resolve (σ : Spec) : IdArg → Id
   | _ => .gen σ.next
 
 /-- when the specification refuses a registration: the object is gone, the id is not a string, the id
-    is the daemon's own, a class is to be registered weakly, or — without `force` — the object is
-    registered already or the id is taken -/
+    is the daemon's own, a class is to be registered weakly, — without `force` — the object is
+    registered already or the id is taken, or the object cannot carry the pyro attributes -/
 def Spec.refuses (σ : Spec) (e : Ent) (ia : IdArg) (force weak : Bool) : Prop :=
   σ.isDead e = true ∨ ia = .nonStr ∨ σ.resolve ia = .daemon ∨ (isClass e = true ∧ weak = true) ∨
-  (force = false ∧ (σ.has e ∨ (σ.m (σ.resolve ia)).isSome = true))
+  (force = false ∧ (σ.has e ∨ (σ.m (σ.resolve ia)).isSome = true)) ∨ canSet e = false
 
 open Classical in
 /-- one step of the specification -/
@@ -788,7 +791,7 @@ theorem regCheck_some_refuses {cfg : Cfg} (hC : cfg.refuseDaemonName = true) {s 
   split at h
   · rename_i h5
     simp only [Bool.and_eq_true, Bool.not_eq_true'] at h5
-    right; right; right; right
+    right; right; right; right; left
     refine ⟨h5.1, Or.inl ?_⟩
     have h5 := h5.2
     unfold alreadyHasId at h5
@@ -800,17 +803,21 @@ theorem regCheck_some_refuses {cfg : Cfg} (hC : cfg.refuseDaemonName = true) {s 
   split at h
   · rename_i h6
     simp only [Bool.and_eq_true, Bool.not_eq_true'] at h6
-    right; right; right; right
+    right; right; right; right; left
     exact ⟨h6.1, Or.inr h6.2⟩
+  split at h
+  · rename_i h7
+    right; right; right; right; right
+    simpa using h7
   · simp at h
 
 theorem regCheck_none_not_refuses {cfg : Cfg} (hC : cfg.refuseDaemonName = true) (hB' : cfg.identityUnpacksWeak = true)
     {s : State} (hI : InvW s) (hB : Back s) {e : Ent} {ia : IdArg}
     {force weak : Bool} (h : regCheck cfg s e ia force weak = none) : ¬ (abs s).refuses e ia force weak := by
-  obtain ⟨h1, h2, h3, h4, h5, h6⟩ := regCheck_none h
+  obtain ⟨h1, h2, h3, h4, h5, h6, h7⟩ := regCheck_none h
   unfold Spec.refuses
   rw [abs_resolve, abs_isDead]
-  rintro (hd | hn | hdm | hcw | ⟨hf, hh | ht⟩)
+  rintro (hd | hn | hdm | hcw | ⟨hf, hh | ht⟩ | hcs)
   · rw [h1] at hd; simp at hd
   · exact h2 hn
   · exact h3 hC hdm
@@ -822,6 +829,7 @@ theorem regCheck_none_not_refuses {cfg : Cfg} (hC : cfg.refuseDaemonName = true)
   · have := h6 hf
     simp only [abs] at ht
     rw [this] at ht; simp at ht
+  · rw [h7] at hcs; simp at hcs
 
 theorem lookup_of_mem_nodup {l : Objs} (hn : (keys l).Nodup) {i : Id} {en : Entry} (h : (i, en) ∈ l) :
     lookup i l = some en := by
@@ -873,6 +881,7 @@ theorem abs_step {s : State} (op : Op) (hI : InvW s) (hB : Back s) (hA : NoAlias
     cases t with
     | noneArg => rfl
     | plain => rfl
+    | daemonObj => rfl
     | byId i =>
       simp only [step, unregister, specStep]
       split
